@@ -1,4 +1,7 @@
 import LoguruModel.Rotation.Ctime
+import LoguruModel.Rotation.Stream
+import LoguruModel.Rotation.CatchUp
+import LoguruModel.Rotation.FloatParsers
 import LoguruModel.Driver
 /-! line-protocol driver of the Rotation area (C07, C19); see harness/c07.py for the grammar -/
 open Rotation Py
@@ -71,6 +74,44 @@ def step (line : String) : String :=
       | .error e => "err " ++ toString e
       | .ok ls => "ok " ++ showFiles ((Sink.runOps ls (Sink.init ls ct sz) ops).files)
     | _, _, _, _ => "bad-op"
+  | "steps" :: spec :: calls =>
+    -- how often each call invokes the step function (first limit + catch-up loop); single time condition
+    match parseSpec spec, calls.mapM parseCall with
+    | some items, some cs =>
+      match makeRotation items with
+      | .error e => "err " ++ toString e
+      | .ok [.time cfg] => "ok " ++ ",".intercalate ((timeRunSteps cfg none cs).map toString)
+      | .ok _ => "not-time"
+    | _, _ => "bad-op"
+  | "stream" :: sz :: ops =>
+    -- a text stream opened in append mode on a file of `sz` bytes: W<n>:<k> write n bytes of which the policy hands
+    -- k (of all then pending) to the OS, X<k> another writer, Ms / Mt / Mf = size read by seek+tell / tell / fstat
+    match sz.toInt? with
+    | none => "bad-op"
+    | some sz =>
+      let rec go (s : Stream) (acc : List String) : List String → Option (Stream × List String)
+        | [] => some (s, acc.reverse)
+        | t :: rest =>
+          let body := (t.drop 1).toString
+          match t.toList.head? with
+          | some 'W' =>
+            match body.splitOn ":" with
+            | [n, k] =>
+              match n.toInt?, k.toInt? with
+              | some n, some k => go (s.write (fun _ _ => k) n) acc rest
+              | _, _ => none
+            | _ => none
+          | some 'X' => match body.toInt? with | some k => go (s.foreign k) acc rest | none => none
+          | some 'M' =>
+            let src? : Option SizeSource := if body == "s" then some .seekEndTell else if body == "t" then some .tellOnly
+              else if body == "f" then some .statSize else none
+            match src? with
+            | some src => let r := s.measure src; go r.2 (toString r.1 :: acc) rest
+            | none => none
+          | _ => none
+      match go (Stream.opened sz) [] ops with
+      | some (s, vals) => s!"ok {",".intercalate vals} {s.disk} {s.pending} {s.fdpos}"
+      | none => "bad-op"
   | ["mk", spec] =>
     match parseSpec spec with
     | some items =>
@@ -85,6 +126,19 @@ def step (line : String) : String :=
       | .error e => "err " ++ toString e
       | .ok none => "none"
       | .ok (some q) => s!"ok {q.num}/{q.den} {q.floor}"
+    | none => "bad-op"
+  | ["sizef", tok] =>
+    -- parse_size in binary64, as Python computes it: the exact value of the resulting double
+    match decTok tok with
+    | some s =>
+      match parseSizeF s with
+      | .error e => "err " ++ toString e
+      | .ok none => "none"
+      | .ok (some v) =>
+        match v, F64.toRat v with
+        | _, some q => s!"ok {q.1}/{q.2} {q.1 / (q.2 : Int)}"
+        | .inf neg, _ => if neg then "-inf" else "inf"
+        | _, _ => "nan"
     | none => "bad-op"
   | ["dur", tok] =>
     match decTok tok with
